@@ -488,6 +488,25 @@ func (tx *OngoingTx) GetWithFilters(ctx context.Context, key []byte, filters ...
 		return nil, err
 	}
 
+	if _, own := tx.entriesByKey[sha256.Sum256(key)]; own {
+		// the key was written by this very transaction: the filters must judge the pending
+		// entry (a deleted one is not found), not the committed one it replaces, and a read
+		// of the transaction's own write is not part of the MVCC read set
+		valRef, err := snap.GetWithFilters(ctx, key)
+		if err != nil {
+			return nil, err
+		}
+		for _, filter := range filters {
+			if filter == nil {
+				return nil, fmt.Errorf("%w: invalid filter function", ErrIllegalArguments)
+			}
+			if err := filter(valRef, snap.ts); err != nil {
+				return nil, err
+			}
+		}
+		return valRef, nil
+	}
+
 	valRef, err := snap.GetWithFilters(ctx, key, filters...)
 	if !tx.IsReadOnly() && errors.Is(err, ErrKeyNotFound) {
 		expectedGet := expectedGet{
